@@ -1229,7 +1229,7 @@ pub struct WdtChain {
     from: Vec<(usize, usize)>,
     rad: [u64; 7],
 }
-const CHAIN_GRIDS: [usize; 2] = [9, 13];
+const CHAIN_GRIDS: [usize; 4] = [9, 13, 11, 1];
 const CHAIN_FLAGS: [u32; 4] = [0, 0xFDFE, 0x5554, 0xA8AA];
 impl WdtChain {
     pub fn new(_tier: Tier) -> Self {
